@@ -971,7 +971,7 @@ class C19(Check):
         # group 0: processes that imported only third-party dependencies, none of the library's own modules: every call imports lazily what it
         # needs, so "alone" (nothing imported before) vs "after other calls" vs the fresh interpreter (everything imported) differ in import
         # history -- a result that depends on which modules happened to be imported earlier shows up as a difference
-        return [{"min-imports"}, {"history"}]
+        return [{"min-imports"}, {"history", "scale", "typesweep"}]
 
     def preload_group(self, i):
         if i == 0:
@@ -994,16 +994,69 @@ class C19(Check):
             self.preload()
 
     def budget(self, tier):
-        return 200.0 if tier == "quick" else 1800.0
+        return 420.0 if tier == "quick" else 2700.0
 
     def arms(self, tier):
-        return [("min-imports", 300 if tier == "quick" else 4000), ("history", 700 if tier == "quick" else 12000)]
+        _build_registry()
+        ne = len(ENTRIES)
+        nb = len(self._octet_entries())
+        # scale: one run per entry point (x4 in thorough); typesweep: one run per (entry point with an octet-string argument, header position 0..3)
+        return [("min-imports", 300 if tier == "quick" else 4000), ("history", 700 if tier == "quick" else 12000),
+                ("scale", ne if tier == "quick" else 4 * ne), ("typesweep", 4 * nb if tier == "quick" else 16 * nb)]
+
+    @staticmethod
+    def _octet_entries():
+        """entry points whose first argument is an octet string taken from message vectors / grammars (typed messages: the leading octets
+        select a document type, service, opcode or packet type)"""
+        _build_registry()
+        return sorted(n for n, e in ENTRIES.items() if e["specs"] and e["specs"][0].split(":")[0] in ("vec", "vecp", "vecm", "vect", "veca", "burst"))
 
     def generate(self, arm, index, streams, tier):
         _build_registry()
         w, k, s, f = streams["work"], streams["knobs"], streams["sched"], streams["fault"]
         g = ArgGen(w, harvest(core.repo_root()))
         names = sorted(ENTRIES)
+        if arm == "scale":
+            # at scale: several hundred / thousand DISTINCT calls of ONE entry point (more than any bounded memo, ring or table holds), then the
+            # earliest calls again; every entry point gets such a run in every batch
+            name = names[index % len(names)]
+            n = k.choice([280, 300, 560]) if tier == "quick" else k.choice([300, 1100, 1100, 2200])
+            ops, seen = [], set()
+            for _ in range(n):
+                try:
+                    args = g.args(ENTRIES[name]["specs"])
+                except Exception:
+                    continue
+                key = core.dumps(args)
+                if key in seen and len(seen) > 8:
+                    continue
+                seen.add(key)
+                ops.append({"client": 0, "entry": name, "args": args})
+            ops += [dict(o) for o in ops[:12]]
+            return {"knobs": {"clients": 1, "scale": len(seen)}, "ops": ops}
+        if arm == "typesweep":
+            # order of first use of message types: one message vector, one of its four leading octets swept through all 256 values in a seeded
+            # order (document type, service, opcode, packet type, version ... live there), each variant parsed once, the first ones again at the end
+            oe = self._octet_entries()
+            name = oe[(index // 4) % len(oe)]
+            pos = index % 4
+            base = None
+            for _ in range(20):
+                try:
+                    args = g.gen(ENTRIES[name]["specs"][0])
+                    rest = [g.gen(sp) for sp in ENTRIES[name]["specs"][1:]]
+                except Exception:
+                    continue
+                if isinstance(args, dict) and set(args) == {"b"} and len(args["b"]) // 2 > pos:
+                    base = bytes.fromhex(args["b"])
+                    break
+            if base is None:
+                return {"knobs": {"clients": 1}, "ops": []}
+            order = list(range(256))
+            k.shuffle(order)
+            ops = [{"client": 0, "entry": name, "args": [{"b": (base[:pos] + bytes([x]) + base[pos + 1:]).hex()}] + rest} for x in order]
+            ops += [dict(o) for o in ops[:16]]
+            return {"knobs": {"clients": 1, "sweep_pos": pos}, "ops": ops}
         # swarm: each run concentrates on a random subset of entry points so that pairs repeat within a history
         subset = k.sample(names, k.choice([1, 1, 2, 3, 5, 8, 16, 40]) if arm != "min-imports" else k.choice([1, 2, 3, 5]))
         nclients = k.choice([2, 2, 3, 4])
